@@ -22,6 +22,11 @@ def gen(tier, rng, scale):
     cases = []
     for _ in range((160 if tier == "quick" else 3000) * scale):
         cases.append({"items": E.gen_history(rng, grammar=True)})
+    # recordings with two events (cpu-clock and the dummy tracking event perf appends with -C / --delay / intel_pt): the FORK / COMM / EXIT / MMAP2
+    # records belong to the first or to the second event, and some files lack PERF_SAMPLE_CPU / PERIOD
+    trng = rng.fork("two-events")
+    for _ in range((40 if tier == "quick" else 800) * scale):
+        cases.append({"items": E.gen_history(trng, grammar=True), "layout": [trng.chance(1, 2), trng.chance(1, 2), True, True, "std", trng.choice([0, 1, 1])]})
     return cases
 
 
@@ -46,6 +51,8 @@ def known(case):
 
 def describe(case):
     d = {"records": case["items"][:120]}
+    if case.get("layout"):
+        d["sample_fields_cpu_period_ip_callchain_chains_taskevent"] = case["layout"]
     if "_view" in case:
         d["observed_entries"] = [{k: (v if k != "samples" else v[:20]) for k, v in e.items()} for e in case["_view"][:12]]
     if "_out" in case:
